@@ -81,7 +81,10 @@ def run(ctx):
     r1.check(any(o.name == 'filter' and o.always and
                  isinstance(o.call.args[0], ast.Compare) and
                  isinstance(o.call.args[0].ops[0], (ast.Lt, ast.LtE)) and
-                 'updated_at' in norm(o.call.args[0].left) and
+                 U.phas(U.inline_locals(ex.node, o.call.args[0].left),
+                        '___.WorkflowExecution.updated_at') and
+                 isinstance(U.inline_locals(ex.node, o.call.args[0].left),
+                            ast.Attribute) and
                  dotted(o.call.args[0].comparators[0]) == 'expiration_time'
                  for o in ops if o.call.args),
              ctx.construct(ex, extra='older than'),
@@ -96,7 +99,10 @@ def run(ctx):
              'superfluous executions are not selected from the '
              'completed-root query', ctx.loc(su))
     ob = [o for o in ops if o.name == 'order_by' and o.always]
-    r1.check(bool(ob) and 'updated_at.desc()' in ob[0].args_text(),
+    r1.check(bool(ob) and len(ob[0].call.args) == 1 and U.pfind(
+        U.inline_locals(su.node, ob[0].call.args[0]),
+        '___.WorkflowExecution.updated_at.desc()') and
+        U.call_name(ob[0].call.args[0]) == 'desc',
              ctx.construct(su, extra='newest first'),
              'not ordered by updated_at descending (the newest executions '
              'would be deleted and the oldest kept)', ctx.loc(su))
